@@ -1,9 +1,9 @@
-\* thorough design run: every configuration of the six string-valued properties, and of the six others
+\* thorough design run: all configurations with <= 3 of the six string-valued properties set, and <= 3 of the six others
 SPECIFICATION Spec
 CONSTANTS
   FocusGroups <- KindGroups
   Modes <- BothModes
-  MaxWeight = 6
+  MaxWeight = 3
   MaxBuilds = 2
   KeyVariant = "tagged"
 VIEW View
